@@ -30,8 +30,7 @@ TrInit == ArraysOf(SeededShapes, Classes)
 Tr3Init == ArraysOf({CHOOSE sh \in SeededShapes : TRUE}, {<<"f64", "d">>, <<"i8", "i">>})
 SimInit == ArraysOf({<<sh[1], sh[2], sh[3]>> : sh \in ToSet(Params.sim_shapes)}, Classes)
 
-OneBase == {"a"}
-TwoBases == {"a", "b"}
+\* (the base names are given in the cfg: stems drawn by the driver from a pool ending in e, m, r, c, digits, dots ...)
 AllActs == {"write", "read", "em2mrc", "mrc2em", "invert"}
 AllDt == {"none", "f64", "f32", "i16", "i8"}
 NoDt == {"none"}
